@@ -149,12 +149,13 @@ def check_convert(r, d):
     if [n for n, _ in names_types(ir0)] != want_names:
         r.fail("param-names", "parse(original) gives %s, text documents %s" % ([n for n, _ in names_types(ir0)], want_names))
     # pipeline B: the docstring inside a def at the generated indentation, through function.parse (carries original_doc_str)
-    variants = [("direct", None), ("plain", None)]  # plain = no original_doc_str: the header comes from ir["doc"]
+    # plain = no original_doc_str: the header comes from ir["doc"]; also emitted at indent levels 1 and 2
+    variants = [("direct", None), ("plain", 0), ("plain", 1), ("plain", 2)]
     if d["indent"] in (4, 8) and not d["lead_nl"]:
         variants.append(("function", d["indent"]))
     for target in ("rest", "google", "numpydoc"):
         for how, ind in variants:
-            tag = "[%s->%s,%s]" % (src_style, target, how)
+            tag = "[%s->%s,%s%s]" % (src_style, target, how, "" if ind is None else "@%d" % ind)
             try:
                 with core.quiet():
                     if how == "direct":
@@ -164,7 +165,7 @@ def check_convert(r, d):
                     elif how == "plain":
                         ir = deepcopy(ir0)
                         ir.pop("_internal", None)
-                        out = cdd.docstring.emit.docstring(ir, docstring_format=target, indent_level=0)
+                        out = cdd.docstring.emit.docstring(ir, docstring_format=target, indent_level=ind)
                     else:
                         pad = " " * (ind - 4)
                         body = '%sdef f(%s):\n%s    """%s%s    """\n%s    return 1\n' % (pad, ", ".join(want_names), pad, orig if orig.startswith("\n") else "\n" + orig, "" if orig.endswith("\n") else "\n", pad)
@@ -185,7 +186,11 @@ def check_convert(r, d):
             # clauses that need the *converted* text to be re-parsed are relaxed where that re-parse is known broken:
             #  P25 converted to numpydoc at indent > 0;  P51 numpydoc original whose misplaced "footer" (tail of the last
             #  description) is appended again after the converted section
-            reparse_known = "P25" if (target == "numpydoc" and (how == "function" or d["indent"] > 0) and is_open("P25")) else ("P51" if (src_style == "numpydoc" and is_open("P51")) else None)
+            if how == "plain" and ind and not d["header_lines"] and target != "rest" and is_open("P42"):
+                p42 = "P42"  # empty header at indent > 0: a blank line is inserted after `Args:` / `Parameters`
+            else:
+                p42 = None
+            reparse_known = p42 or ("P25" if (target == "numpydoc" and (how == "function" or d["indent"] > 0 or (how == "plain" and ind)) and is_open("P25")) else ("P51" if (src_style == "numpydoc" and is_open("P51")) else None))
             out_lines = [l.strip() for l in out.splitlines()]
             pos = 0
             for hl in d["header_lines"]:
